@@ -305,6 +305,14 @@ def result_representable(cart, sig):
     return representable(cart, sig, eps=mpf(10) ** -30)
 
 
+def _collinear(case):
+    if case["op"] not in ("deltaangle", "is_parallel", "is_antiparallel", "is_perpendicular") or not case["b"] or len(case["a"]) != 3:
+        return False
+    a, b = vec_of(case["a"]), vec_of(case["b"])
+    cr = (a[1] * b[2] - a[2] * b[1], a[2] * b[0] - a[0] * b[2], a[0] * b[1] - a[1] * b[0])
+    return all(c == 0 for c in cr) and any(x != 0 for x in a) and any(x != 0 for x in b)
+
+
 def sig_plan(case, tier, mode):
     """Signature combinations to run for a case."""
     na = len(case["a"])
@@ -325,6 +333,8 @@ def sig_plan(case, tier, mode):
             limit = 24
     if mode == "f64":
         limit = min(limit or 10, 10) if tier == "quick" else min(limit or 36, 36)
+    if _collinear(case):
+        limit = None      # every kernel has its own rounding in front of the clamp / comparison: all pairings, both precisions
     if limit is not None and len(combos) > limit:
         canon = (CANON[na], CANON[nb] if nb else None)
         h = _h(case, "sig")
